@@ -9,6 +9,7 @@ SPEC = {
     "level_text": 'exploration: the recording exporter itself is the monitor - an in-flight counter checked at every Export entry (before the scripted delay, so overlap windows are wide) and the size of every batch tagged with the processor phase (before-first-flush, during-flush, after-flush, drain). Driven by the E2 real-thread history engine under TSan + perturbation shim over batch span/log processors, providers, simple span/log processors hammered from 2..8 threads, and the periodic reader raced with ForceFlush.',
     "level_note": "trusts the recording exporter's relaxed in-flight counter (no happens-before edge is added by the monitor) and TSan; covers only the schedules produced; phases without observed batches fail the coverage floor instead of passing vacuously",
     "rule": 'case i = one seeded history as for C01 with subject mix batch span / batch log / providers / SimpleSpanProcessor / SimpleLogRecordProcessor and, every 5th case, a periodic reader raced with 1..3 ForceFlush threads. Every Export entry is checked for in-flight > 1 and 1 <= |batch| <= max_export_batch_size, tagged with the phase computed from the recorded flush/shutdown calls. Non-trivial = at least one Export happened; distinct = hash(case seed, order of exporter/boundary events).',
+    "rule_extra": ' Round 2: every 8th clean batch-processor history is re-checked by monitors/history.py.',
     "assumptions": ASSUME_COMMON + [
         "a relaxed atomic counter is used as the logical clock: its modification order is consistent with real time, and it adds no happens-before edge that could hide an SDK race from TSan",
         "a record that was never delivered is a legitimate drop only if A - C >= max_queue_size (A = delivered records whose call began before this call returned, C = records of batches whose Export was entered before this call began); sound because CircularBuffer::Add reads tail before head",
